@@ -298,6 +298,15 @@ def run_hist(spec):
     for c in ("turnout", "dem", "gop"):
         hist2.loc[mask, f"results_{c}"] = (hist2.loc[mask, f"results_{c}"] * rng.uniform(0.2, 3.0, size=int(mask.sum()))
                                            ).astype(int) + 7
+    if i % 3 != 0 and int(mask.sum()):
+        # the hidden result of an outstanding unit may also be MISSING (an empty cell of the historical file) or not
+        # finite: it is hidden all the same
+        js = hist2.index[mask][: 1 + i % 2]
+        col = f"results_{estimands[0]}"
+        hist2[col] = hist2[col].astype(float)
+        hist[col] = hist[col].astype(float)  # same column type in both files: only the hidden VALUES differ
+        hist2.loc[js, col] = [float("nan"), float("inf")][(i // 3) % 2]
+        out["counters"]["hist_hidden_value_not_finite"] = 1
     cwd0 = os.getcwd()
     digests = []
     scratch = tempfile.mkdtemp(prefix="verif_c10_")
